@@ -14,6 +14,14 @@ Props file contains a theorem that is not pinned.  So a silently weakened statem
 statement is written with (`in_domain`, `run_ok`, `expected`, `leaf_spec`, ...) -- breaks the check until somebody
 deliberately re-pins with `./check --write-pins` (and the diff of EXPECTED.json shows in review which statements moved).
 
+RUNNERS.  The correspondence evaluates functions of `coq/Model/*Run.v` (`run_case`, ...): decoders, the call of the model, the
+encoders.  They are mentioned by no theorem, so the statement pins do not see them -- a runner changed to print a constant (or the
+implementation's expected answer) would keep every check green.  Section `runners` of EXPECTED.json therefore pins, for every
+`Model/*Run.v` file, `text` = sha256 of ALL its sentences (comments stripped, whitespace normalised) and `defs` = sha256 of the
+definition closure of that text (same machinery).  `verify_runners(pid)` recomputes the pins of the runners property `pid` uses --
+the `Model.<Name>Run` modules named in lib/props/<pid>.py or in any lib module it imports (transitively) -- and `proof_stage`
+reports a difference as a broken obligation of kind `pin`.
+
 Not covered: string notations (`Notation "a =? b" := ...`, all in coq/Num/Num.v), `Ltac`, implicit-argument / scope
 declarations, and opaque lemmas (they cannot change what a statement means)."""
 import hashlib
@@ -194,6 +202,16 @@ class Index:
         return sorted(chosen)
 
 
+_IDX = []
+
+
+def the_index():
+    """One Index per process (the files do not change while a check verifies its pins)."""
+    if not _IDX:
+        _IDX.append(Index())
+    return _IDX[0]
+
+
 def h(text):
     return hashlib.sha256(text.encode()).hexdigest()[:20]
 
@@ -215,6 +233,91 @@ def props_of(idx, pid):
     return out
 
 
+LIB = os.path.join(ROOT, 'lib')
+RUNNER_REF = re.compile(r'\bModel\.([A-Za-z0-9_]+Run)\b')
+
+
+def runner_mods():
+    return sorted('Model.' + fn[:-2] for fn in os.listdir(os.path.join(COQ, 'Model')) if fn.endswith('Run.v'))
+
+
+def runner_pin(idx, mod):
+    text = '\n'.join(idx.sents.get(mod, []))
+    clos = idx.def_closure(mod, text)
+    return {'text': h(text), 'defs': h('\n'.join(clos)), 'ndefs': len(clos)}
+
+
+def _lib_files():
+    """module name -> path, for lib/*.py and lib/props/*.py"""
+    out = {}
+    for d in (LIB, os.path.join(LIB, 'props')):
+        for fn in sorted(os.listdir(d)):
+            if fn.endswith('.py') and fn != '__init__.py':
+                out[fn[:-3]] = os.path.join(d, fn)
+    return out
+
+
+def runners_of(pid):
+    """The `Model.<Name>Run` modules property pid's check evaluates: named in lib/props/<pid>.py or in a lib module it imports
+    (import lines are matched textually, anywhere in the file -- several checks import their helper inside `run`)."""
+    files = _lib_files()
+    start = pid.lower()
+    if start not in files:
+        return []
+    seen, todo, found = set(), [start], set()
+    while todo:
+        m = todo.pop()
+        if m in seen:
+            continue
+        seen.add(m)
+        src = open(files[m]).read()
+        found.update('Model.' + r for r in RUNNER_REF.findall(src))
+        for line in src.split('\n'):
+            ls = line.strip()
+            if not (ls.startswith('from ') or ls.startswith('import ')):
+                continue
+            for tok in IDENT.findall(ls):
+                if tok in files and tok not in seen:
+                    todo.append(tok)
+    return sorted(found)
+
+
+def runner_users():
+    """runner module -> properties whose check evaluates it (for the evidence / for humans)."""
+    out = {}
+    for pid in all_pids():
+        for r in runners_of(pid):
+            out.setdefault(r, []).append(pid)
+    return out
+
+
+def verify_runners(pid):
+    """[(runner, problem)] for the runners property pid uses."""
+    try:
+        exp = json.load(open(EXPECTED)).get('runners')
+    except (OSError, ValueError) as ex:
+        return [('EXPECTED.json', 'cannot read coq/Props/EXPECTED.json: %s' % ex)]
+    if exp is None:
+        return [('EXPECTED.json', 'no section `runners` in coq/Props/EXPECTED.json')]
+    used = runners_of(pid)
+    if not used:
+        return []
+    idx = the_index()
+    bad = []
+    for r in used:
+        if r not in idx.sents:
+            bad.append((r, 'runner named by the check of %s does not exist (coq/%s.v)' % (pid, r.replace('.', '/'))))
+        elif r not in exp:
+            bad.append((r, 'runner is not pinned (new or renamed)'))
+        else:
+            now = runner_pin(idx, r)
+            if now['text'] != exp[r]['text']:
+                bad.append((r, 'the text of the runner file differs from the pinned one'))
+            elif now['defs'] != exp[r]['defs']:
+                bad.append((r, 'a definition the runner is written with (transitively) differs from the pinned one'))
+    return bad
+
+
 def all_pids():
     return sorted(fn[:-2] for fn in os.listdir(os.path.join(COQ, 'Props')) if re.match(r'^C\d\d\.v$', fn))
 
@@ -222,7 +325,10 @@ def all_pids():
 def write_pins():
     idx = Index()
     data = {'comment': 'generated by ./check --write-pins (lib/pins.py); verified by lib/common.py:check_props on every run',
-            'properties': {pid: props_of(idx, pid) for pid in all_pids()}}
+            'properties': {pid: props_of(idx, pid) for pid in all_pids()},
+            'runners': {}}
+    users = runner_users()
+    data['runners'] = {r: dict(runner_pin(idx, r), used_by=users.get(r, [])) for r in runner_mods()}
     with open(EXPECTED, 'w') as f:
         json.dump(data, f, indent=1, sort_keys=True)
         f.write('\n')
@@ -237,7 +343,7 @@ def verify(pid):
         return [('EXPECTED.json', 'cannot read coq/Props/EXPECTED.json: %s' % ex)]
     if pid not in exp:
         return [(pid, 'no pinned statements for this property in coq/Props/EXPECTED.json')]
-    now = props_of(Index(), pid)
+    now = props_of(the_index(), pid)
     bad = []
     for kind in ('theorems', 'examples'):
         e, n = exp[pid].get(kind, {}), now[kind]
@@ -262,5 +368,5 @@ if __name__ == '__main__':
                                                   sum(len(v['examples']) for v in d['properties'].values())))
     else:
         for p in (sys.argv[1:] or all_pids()):
-            for name, why in verify(p):
+            for name, why in verify(p) + verify_runners(p):
                 print(p, name, why)
